@@ -20,7 +20,9 @@
 
 
 // C++ Standard Library includes
+#include <fstream>
 #include <stdexcept>
+#include <string>
 
 
 // project includes
@@ -57,7 +59,10 @@ Counted::Counted( const filename::Definition& fname_def, size_t max_entries,
 
 
 
-/// Checks the currently open file if it can still be used, i.e. it is empty.
+/// Checks the currently open file if it can still be used, i.e. it contains
+/// less than the maximum number of entries.<br>
+/// The entries (lines) that an existing file contains already, e.g. from
+/// before a restart of the process, are counted.
 ///
 /// @return
 ///    \c true if the current log file can still be used, \c false if the log
@@ -65,12 +70,21 @@ Counted::Counted( const filename::Definition& fname_def, size_t max_entries,
 /// @since  1.11.0, 05.09.2018
 bool Counted::openCheck()
 {
-   if (fileSize() != 0)
-      return false;
-
-   // a new, empty file: start counting again
    mNumberOfEntries = 0;
-   return true;
+
+   if (fileSize() != 0)
+   {
+      std::ifstream  existing( mCurrentLogfileName);
+      std::string    line;
+
+      if (!existing)
+         return false;
+
+      while (std::getline( existing, line))
+         ++mNumberOfEntries;
+   } // end if
+
+   return mNumberOfEntries < mMaxEntries;
 } // Counted::openCheck
 
 
